@@ -1,6 +1,7 @@
 package main
 
 import (
+	"errors"
 	"context"
 	"fmt"
 	"github.com/olive-io/bpmn/schema"
@@ -601,6 +602,71 @@ func runC03(env *Env) {
 		if bad > 0 {
 			rep.Violate("C03-release", cs, fmt.Sprintf("%d instances went wrong, first: %s", bad, first))
 		}
+	}
+	// tokens split off by a fork start with a retry budget of their own: a task before the fork is answered "error,
+	// retry once" and then without error; behind the fork a branch's task is answered the same way -- it is requested
+	// again, and the join gets a token from every branch
+	for vi, which := range []string{"b", "a", "b", "both"} {
+		prepRetried := vi == 0 // (a token's retries are counted over its whole life: the token that goes on to branch a has used its one retry then)
+		cs := fmt.Sprintf("task prep retried once: %v; fork; task %s retried once; join", prepRetried, which)
+		env.Current(cs)
+		p := &Prog{}
+		p.Node("start", "start")
+		p.Node("task", "prep")
+		p.Node("par", "F")
+		p.Node("task", "a")
+		p.Node("task", "b")
+		p.Node("par", "G")
+		p.Node("task", "after")
+		p.Node("end", "end")
+		p.Flow("start", "prep", "")
+		p.Flow("prep", "F", "")
+		p.Flow("F", "a", "")
+		p.Flow("F", "b", "")
+		p.Flow("a", "G", "")
+		p.Flow("b", "G", "")
+		p.Flow("G", "after", "")
+		p.Flow("after", "end", "")
+		defs, err := ParseDefs(p.XML(""))
+		must(err)
+		in, err := StartInst(defs, InstOpt{})
+		must(err)
+		rep.Evaluations++
+		rep.Nontrivial++
+		rep.Count("retry_before_and_behind_a_fork")
+		retryOnce := func(task string) bool {
+			ch := make(chan bpmn.ErrHandler, 1)
+			ch <- bpmn.ErrHandler{Mode: bpmn.RetryMode, Retries: 1}
+			return in.Answer(task, tmoStep, bpmn.DoWithErrHandle(errors.New("once"), ch)) && in.Answer(task, tmoStep)
+		}
+		problem := ""
+		if prepRetried && !retryOnce("prep") {
+			problem = "prep answered 'error, retry once': it was not requested again"
+		} else if !prepRetried && !in.Answer("prep", tmoStep) {
+			problem = "prep not requested"
+		}
+		for _, t := range []string{"a", "b"} {
+			if problem != "" {
+				break
+			}
+			if which == t || which == "both" {
+				if !retryOnce(t) {
+					problem = "task " + t + " answered 'error, retry once' behind the fork: it was not requested again"
+				}
+			} else if !in.Answer(t, tmoStep) {
+				problem = "task " + t + " not requested"
+			}
+		}
+		if problem == "" && !in.Answer("after", tmoStep) {
+			problem = "both branches answered: the join did not release"
+		}
+		if problem == "" && !in.WaitCease(tmoStep) {
+			problem = "the instance did not complete"
+		}
+		if problem != "" {
+			rep.Violate("C03-release", cs, problem+"; log: "+tailStr(logString(in.Log()), 1200))
+		}
+		in.Close()
 	}
 	// long histories of one gateway: the same join activated over and over
 	{
